@@ -369,6 +369,16 @@ def analyze(ctx, want):
     inner = [h for h, b in rd.natural_loops().items() if not any(h2 != h and h2 in b for h2 in rd.natural_loops())]
     sample("C18.a", {"loop_sources": srcs})
 
+    # the class text of an edge label is looked up by the id on the transition: the registry's lookup answers with the entry
+    # at exactly that index (or None)
+    gc = F.fn(r"CharacterClassRegistry::get_character_class$")
+    ctx.analysed_fn(gc)
+    exg, pg = run_fn(gc, F, LogModel())
+    for p_ in ret_paths(pg):
+        got_ = re.sub(r"[&*()]", "", S.fstr(p_.end[1]))
+        ob("C18.b", "class-lookup-by-the-given-id", got_ in ("slice::getself.character_classes, id", "Vec::getself.character_classes, id") or re.match(r"^(slice|Vec)::getself\.character_classes, (CharClassID::as_usize)?id( as usize)?$", got_) is not None,
+           "get_character_class(id) returns %s" % S.fstr(p_.end[1])[:100], gc.loc())
+
     cr = F.fn(r"internal::dot::compiled_dfa_render$")
     ctx.analysed_fn(cr)
     ex, paths = run_fn(cr, F, LogModel(), max_paths=5000, desugar=r".|collect")
